@@ -73,8 +73,27 @@ func vfC04Run(cc *CallContext) error {
 	return nil
 }
 
+// vfC04Sentinel is the ONE *RpcError value the "sent*" handlers return on every
+// call (the package-level-sentinel idiom). It is re-created at the start of each
+// execution so nothing a server writes into it leaks between executions.
+var vfC04Sentinel *RpcError
+
 func vfC04Server() *Server {
 	s := NewServer()
+	Unary(s, "sentval", func(ctx context.Context, cc *CallContext, p VfXParams) (int64, error) {
+		vfEvents = append(vfEvents, VfEvent{What: "unary", Method: cc.Method})
+		if p.X > 0 {
+			cc.ClientLog(LogInfo, fmt.Sprintf("log-%d", p.X))
+		}
+		return 0, vfC04Sentinel
+	})
+	UnaryVoid(s, "sentvoid", func(ctx context.Context, cc *CallContext, p VfXParams) error {
+		vfEvents = append(vfEvents, VfEvent{What: "unary", Method: cc.Method})
+		if p.X > 0 {
+			cc.ClientLog(LogInfo, fmt.Sprintf("log-%d", p.X))
+		}
+		return vfC04Sentinel
+	})
 	Unary(s, "val", func(ctx context.Context, cc *CallContext, p VfXParams) (int64, error) {
 		if err := vfC04Run(cc); err != nil {
 			return 0, err
@@ -320,5 +339,125 @@ func TestVerif_C04(t *testing.T) {
 			res = "exc:" + vfErrOf(excB).Type
 		}
 		x.Outcome("%s|%d|%v|%s|rid=%s", tr, status, gotT, res, rid)
+	})
+
+	// Second space: the handler returns the SAME *RpcError value on every call
+	// (sentinel error). Two calls with different request ids on one server: each
+	// response must echo ITS request's id on its logs and its exception batch.
+	ids := []string{"", "r1", "r2"}
+	modes := []string{"pipe-one-connection", "pipe-two-connections", "http"}
+	meths := []string{"sentval", "sentvoid"}
+	venum.Explore(t, venum.Cfg{Name: "sentinel-error-two-calls"}, func(x *venum.X) {
+		mode := modes[x.Choose(len(modes), "transport")]
+		type call struct {
+			method string
+			rid    string
+			logs   int
+		}
+		var calls []call
+		for i := 0; i < 2; i++ {
+			calls = append(calls, call{
+				method: meths[x.Choose(len(meths), fmt.Sprintf("method%d", i))],
+				rid:    ids[x.Choose(len(ids), fmt.Sprintf("request-id%d", i))],
+				logs:   x.Choose(2, fmt.Sprintf("logs%d", i)),
+			})
+		}
+		vfC04Sentinel = &RpcError{Type: "ValueError", Message: "sentinel failure"}
+		vfResetEvents()
+		s := vfC04Server()
+		x.Note("%s calls=%+v", mode, calls)
+		reqOf := func(c call, i int) []byte {
+			var kv []string
+			if c.rid != "" {
+				kv = append(kv, MetaRequestID, c.rid)
+			}
+			xv := int64(0)
+			if c.logs == 1 {
+				xv = int64(i + 1)
+			}
+			return vfXReq(c.method, xv, kv...)
+		}
+		var bodies [][]byte
+		var pan any
+		switch mode {
+		case "pipe-one-connection":
+			out, _, p := vfServePipe(s, append(reqOf(calls[0], 0), reqOf(calls[1], 1)...))
+			pan = p
+			bodies = [][]byte{out}
+		case "pipe-two-connections":
+			for i, c := range calls {
+				out, _, p := vfServePipe(s, reqOf(c, i))
+				if p != nil {
+					pan = p
+				}
+				bodies = append(bodies, out)
+			}
+		default:
+			h := NewHttpServer(s)
+			for i, c := range calls {
+				rec, p := vfArrowPost(h, "/"+c.method, reqOf(c, i))
+				if p != nil {
+					pan = p
+				}
+				bodies = append(bodies, rec.Body.Bytes())
+			}
+		}
+		tr := "http"
+		if mode != "http" {
+			tr = "pipe"
+		}
+		base := "C04:" + tr + ":sentinel-error:"
+		if pan != nil {
+			x.Failf(base+"panic-escaped", "panic escaped dispatch: %v", pan)
+			x.Outcome("panic")
+			return
+		}
+		var streams []vfStream
+		for _, b := range bodies {
+			st, _, perr := vfParseStreams(b)
+			if perr != nil {
+				x.Failf(base+"unparseable", "response does not parse: %v", perr)
+				x.Outcome("unparseable")
+				return
+			}
+			streams = append(streams, st...)
+		}
+		if len(streams) != 2 {
+			x.Failf(base+"stream-count", "%d response streams for 2 calls", len(streams))
+			x.Outcome("streams=%d", len(streams))
+			return
+		}
+		var oc []string
+		for i, st := range streams {
+			c := calls[i]
+			nLog, nExc, nRes := 0, 0, 0
+			last := ""
+			for _, b := range st.Batches {
+				k := vfC04Kind(b)
+				last = k
+				switch k {
+				case "log":
+					nLog++
+					if got := b.MV(MetaRequestID); got != c.rid {
+						x.Failf(base+"request-id-on-log", "call %d (id %q): log batch carries request id %q", i, c.rid, got)
+					}
+				case "exception":
+					nExc++
+					if got := b.MV(MetaRequestID); got != c.rid {
+						x.Failf(fmt.Sprintf("%srequest-id-on-exception:call%d", base, i), "call %d sent request id %q (the other call sent %q): its exception batch carries %q", i, c.rid, calls[1-i].rid, got)
+					}
+					oc = append(oc, "exc-rid="+b.MV(MetaRequestID))
+				default:
+					nRes++
+				}
+			}
+			if nLog != c.logs {
+				x.Failf(base+"log-filter", "call %d: %d log batches, handler emitted %d", i, nLog, c.logs)
+			}
+			if nRes != 0 || nExc != 1 || last != "exception" {
+				x.Failf(base+"exception-count", "call %d: %d result / %d exception batches, last=%s; want exactly one exception batch, last, and no result", i, nRes, nExc, last)
+			}
+		}
+		x.Outcome("%s|%v", mode, oc)
 	})
 }
